@@ -448,7 +448,46 @@ def rule_INIT(ctx, rid='L0'):
                    'is reset' % m)
 
 
+def rule_REC(ctx, rid='G5'):
+    """A recursive retry is the same request: an option that a method passes on to a recursive
+    call of itself (split -> split after blocking an ellipsoid) still has the value the caller
+    gave - the parameter is not rebound on the way."""
+    ctx.rule(rid, 'options handed on in a recursive call are the caller\'s: no parameter that '
+             'a method passes to a recursive call of itself is rebound before that call')
+    n = 0
+    for q, f in sorted(ctx.program.functions.items()):
+        if not f.self_name:
+            continue
+        recs = [c for c in walk_no_nested(f.node) if isinstance(c, ast.Call) and
+                dotted(c.func) == '%s.%s' % (f.self_name, f.name)]
+        if not recs:
+            continue
+        cfg = cfg_of(f)
+        passed = set()
+        for c in recs:
+            for a in list(c.args) + [k.value for k in c.keywords]:
+                if isinstance(a, ast.Name) and a.id in f.params:
+                    passed.add(a.id)
+        for p in sorted(passed):
+            rebinds = [st for st in walk_no_nested(f.node)
+                       if isinstance(st, (ast.Assign, ast.AugAssign)) and cfg.has(st) and any(
+                           isinstance(t, ast.Name) and t.id == p
+                           for t in (st.targets if isinstance(st, ast.Assign) else [st.target]))
+                       and any(cfg.has(c) and cfg.can_reach(cfg.node_of(st).id, cfg.node_of(c).id)
+                               for c in recs)]
+            n += 1
+            ctx.ob(rid, '%s:recursive-call-keeps(%s)' % (q, p), not rebinds,
+                   f.where(rebinds[0]) if rebinds else f.where(),
+                   'the recursive call receives the caller\'s `%s`' % p if not rebinds else
+                   '`%s` rebinds the option before it is handed to the recursive call: the retry '
+                   'runs with a different setting than the caller asked for (e.g. overlapping '
+                   'ellipsoids although allow_overlap=False)' % unparse(rebinds[0])[:60])
+    ctx.require(n >= 1, 'G5: no recursive call with a forwarded option found (Union.split)')
+    return n
+
+
 def run(ctx):
+    rule_REC(ctx)
     prog = ctx.program
     ctx.rule('L1', 'group-complete: along every bounded path, all members of an aligned group '
              'undergo the same sequence of structural updates with the same selectors')
